@@ -6,7 +6,8 @@ CONSTANTS
   ReadLens = {9, 10, 11}
   FlankIds = {1, 2, 3, 4}
   FlankPairs = "diag"
-  MMBases = {"A", "C", "G", "T"}
+  MMBases = {"A", "C", "G", "T", "N"}
+  BoundaryPs = {0, 1, 2}
   XBases = {"A", "C", "G", "T"}
   Protos = {"nla", "chic"}
   Variant = "design"
